@@ -221,3 +221,7 @@ def generate(repo, g):
     # ---- class-level attribute lookup facts (Model/ClassLookup.lean)
     from translator import c02_lookup_facts
     c02_lookup_facts.generate(repo, g)
+
+    # ---- iteration over a set of iterables (Model/SetIter.lean)
+    from translator import c02_setiter_facts
+    c02_setiter_facts.generate(repo, g)
